@@ -1,8 +1,89 @@
 import Driver.Proto
+import Verif.Model.DataURI
+import Verif.Spec.Rfc2397
 /-! driver handlers for property C18 (ops `model.*`, `spec.*`, `trig.*`) -/
 namespace Verif.Driver.C18
 open Verif Verif.Driver
 
-def handlers : List (String × Handler) := []
+namespace M
+export Verif.Model.DataURI (dataURI parseDataURI mediatype b64enc b64dec encodeURL decodeURL tbl)
+end M
+namespace S
+export Verif.Spec.Rfc2397 (rfcParse mtNorm holdsDataURI specMediatype specMediatypeOK quotesClosed
+  trigPlus trigParamNoType trigB64Item trigTextPlainPrefix trigQuoteShift trigBackslash pctDecode b64Decode
+  validlyEncoded)
+end S
+
+def cb (l : List Char) : Bytes := charsToBytes l
+
+def normBytes (n : List Char × List (List Char)) : Bytes :=
+  cb (n.1 ++ (n.2.map (fun p => ';' :: p)).flatten)
+
+/-- `model.c18.datauri u hasSub subOut` → `[out, parsed?, mediatype, data]`
+    (`sub` answers `subOut` whatever it is asked, or `none` when `hasSub = 0`) -/
+def datauri : Handler := fun args => do
+  let u ← argChars args 0
+  let hasSub ← argBool args 1
+  let subOut ← argChars args 2
+  let sub : List Char → List Char → Option (List Char) := fun _ _ => if hasSub then some subOut else none
+  let out := M.dataURI sub u
+  match M.parseDataURI u with
+  | none => .ok (listReply [cb out, boolBytes false, [], []])
+  | some (mt, d) => .ok (listReply [cb out, boolBytes true, cb mt, cb d])
+
+/-- `spec.c18.rfc u` → `[ok, media type text, normal form, data, trigPlus trigParamNoType trigB64Item trigTextPlainPrefix,
+    validly encoded?]` -/
+def rfc : Handler := fun args => do
+  let u ← argChars args 0
+  let tr : Bytes := boolBytes (S.trigPlus u) ++ boolBytes (S.trigParamNoType u) ++ boolBytes (S.trigB64Item u)
+    ++ boolBytes (S.trigTextPlainPrefix u)
+  match S.rfcParse u with
+  | none => .ok (listReply [boolBytes false, [], [], [], tr, boolBytes false])
+  | some (mt, d) => .ok (listReply [boolBytes true, cb mt, normBytes (S.mtNorm mt), cb d, tr,
+      boolBytes (S.validlyEncoded M.tbl u)])
+
+/-- `spec.c18.holds u out d'` → the property on an (input, implementation output) pair -/
+def holds : Handler := fun args => do
+  let u ← argChars args 0
+  let out ← argChars args 1
+  let d ← argChars args 2
+  .ok (boolBytes (S.holdsDataURI u out d))
+
+/-- `model.c18.mediatype b` -/
+def mediatype : Handler := fun args => do
+  let b ← argChars args 0
+  .ok (cb (M.mediatype b))
+
+/-- `spec.c18.mediatype b out` → `[specMediatype b, out allowed?, quotes closed?, trigQuoteShift, trigBackslash]` -/
+def specMt : Handler := fun args => do
+  let b ← argChars args 0
+  let out ← argChars args 1
+  .ok (listReply [cb (S.specMediatype b), boolBytes (S.specMediatypeOK 0 b out), boolBytes (S.quotesClosed b),
+    boolBytes (S.trigQuoteShift b), boolBytes (S.trigBackslash b)])
+
+def optReply (o : Option (List Char)) : Bytes :=
+  match o with
+  | some d => listReply [boolBytes true, cb d]
+  | none => listReply [boolBytes false, []]
+
+/-- contracts of the dependency functions, one op each -/
+def b64enc : Handler := fun args => do let b ← argChars args 0; .ok (cb (M.b64enc b))
+def b64dec : Handler := fun args => do let b ← argChars args 0; .ok (optReply (M.b64dec b))
+def encurl : Handler := fun args => do let b ← argChars args 0; .ok (cb (M.encodeURL M.tbl b))
+def decurl : Handler := fun args => do let b ← argChars args 0; .ok (cb (M.decodeURL b))
+def parse : Handler := fun args => do
+  let u ← argChars args 0
+  match M.parseDataURI u with
+  | none => .ok (listReply [boolBytes false, [], []])
+  | some (mt, d) => .ok (listReply [boolBytes true, cb mt, cb d])
+def specPct : Handler := fun args => do let b ← argChars args 0; .ok (cb (S.pctDecode b))
+def specB64 : Handler := fun args => do let b ← argChars args 0; .ok (optReply (S.b64Decode b))
+
+def handlers : List (String × Handler) := [
+  ("model.c18.datauri", datauri), ("model.c18.mediatype", mediatype), ("model.c18.parse", parse),
+  ("model.c18.b64enc", b64enc), ("model.c18.b64dec", b64dec), ("model.c18.encurl", encurl),
+  ("model.c18.decurl", decurl),
+  ("spec.c18.rfc", rfc), ("spec.c18.holds", holds), ("spec.c18.mediatype", specMt),
+  ("spec.c18.pct", specPct), ("spec.c18.b64", specB64)]
 
 end Verif.Driver.C18
